@@ -20,11 +20,11 @@ class C13(Prop):
     ]
 
     def consts(self, tier):
-        return {"Conn": {"c1", "c2"}, "CursUsed": {1, 2}, "ThUsed": {"main", "other"}, "NoiseUsed": {"withblock", "cursorctx", "setvar", "usesame"}}
+        return {"Conn": {"c1", "c2"}, "CursUsed": {1, 2}, "ThUsed": {"main", "other"}, "NoiseUsed": {"withblock", "cursorctx", "setvar", "usesame"}, "CmtUsed": True}
 
     def model_checks(self, tier):
         big = tier == "thorough"
-        c = {"Conn": {"c1", "c2"}, "CursUsed": {1}, "ThUsed": {"main"}, "NoiseUsed": {"withblock"}, "Devs": set(), "Depth": 16 if big else 12, "MaxFails": 99, "SampleOneIn": 1}
+        c = {"Conn": {"c1", "c2"}, "CursUsed": {1}, "ThUsed": {"main"}, "NoiseUsed": {"withblock"}, "CmtUsed": True, "Devs": set(), "Depth": 16 if big else 12, "MaxFails": 99, "SampleOneIn": 1}
         return [
             dict(name="mc_ideal", consts=c, invariants=["StepInv"], constraint="Bound", view="ViewSt", timeout=1500),
             dict(name="mc_snapshot", consts=dict(c, Devs={"C13.reader_transaction_snapshot"}, Depth=6),
@@ -33,7 +33,7 @@ class C13(Prop):
 
     def generations(self, tier, seed):
         big = tier == "thorough"
-        base = {"Conn": {"c1", "c2"}, "CursUsed": {1, 2}, "ThUsed": {"main"}, "NoiseUsed": {"withblock", "setvar"}, "Devs": set(), "MaxFails": 2, "SampleOneIn": 1}
+        base = {"Conn": {"c1", "c2"}, "CursUsed": {1, 2}, "ThUsed": {"main"}, "NoiseUsed": {"withblock", "setvar"}, "CmtUsed": False, "Devs": set(), "MaxFails": 2, "SampleOneIn": 1}
         allnoise = {"withblock", "cursorctx", "setvar", "usesame"}
         return [
             dict(name="edges", mode="edges", sample=30000 if big else 3000, consts=dict(base, CursUsed={1}, MaxFails=99, SampleOneIn=1, Depth=9)),
@@ -41,9 +41,12 @@ class C13(Prop):
             # calls made from another thread than the one that opened the connection; every kind of neutral call in between
             dict(name="edges_threads", mode="edges", sample=20000 if big else 2000,
                  consts=dict(base, CursUsed={1}, ThUsed={"main", "other"}, NoiseUsed=allnoise, MaxFails=1, SampleOneIn=1, Depth=6)),
+            # table comments written and read inside / outside transactions (metadata is transactional like rows)
+            dict(name="edges_cmt", mode="edges", sample=20000 if big else 2000,
+                 consts=dict(base, CursUsed={1}, NoiseUsed={"withblock"}, CmtUsed=True, MaxFails=0, SampleOneIn=1, Depth=7)),
             dict(name="walks", mode="walks", depth=14, num=5000 if big else 800,
-                 consts=dict(base, ThUsed={"main", "other"}, NoiseUsed=allnoise, Depth=14)),
-        ] + ([dict(name="walks_long", mode="walks", depth=40, num=1500, seed_offset=2, consts=dict(base, ThUsed={"main", "other"}, NoiseUsed=allnoise, MaxFails=5, SampleOneIn=1, Depth=40))] if big else [])
+                 consts=dict(base, ThUsed={"main", "other"}, NoiseUsed=allnoise, CmtUsed=True, Depth=14)),
+        ] + ([dict(name="walks_long", mode="walks", depth=40, num=1500, seed_offset=2, consts=dict(base, ThUsed={"main", "other"}, NoiseUsed=allnoise, CmtUsed=True, MaxFails=5, SampleOneIn=1, Depth=40))] if big else [])
 
     def nontrivial(self, ops):
         return any(o["k"] == "begin" for o in ops) and len({o["c"] for o in ops}) == 2
@@ -56,9 +59,12 @@ class C13(Prop):
             _FS = fakesnow.instance.FakeSnow()
         _N += 1
         sc = f"S{_N}"
-        conns = {c: _FS.connect("DB1", sc) for c in ("c1", "c2")}
+        # in some behaviours the sessions connect WITHOUT a database and name everything fully (they must still be separate sessions)
+        nodb = rng.random() < 0.3
+        _FS.connect("DB1", sc).cursor().execute("create table t (v int)")
+        conns = {c: (_FS.connect() if nodb else _FS.connect("DB1", sc)) for c in ("c1", "c2")}
         longcur = {c: conns[c].cursor() for c in conns}
-        longcur["c1"].execute("create table t (v int)")
+        T = f"db1.{sc}.t" if nodb else "t"
         ev = []
         import threading
 
@@ -78,6 +84,8 @@ class C13(Prop):
                             c2.fetchall()
                     elif w == "setvar":
                         cur.execute("set vt_noise = 1")
+                    elif nodb:
+                        cur.execute("select 1")          # (a session without a database has no schema to re-select)
                     else:
                         cur.execute(f"use schema {sc}")
                     obs["res"] = "ok"
@@ -86,15 +94,17 @@ class C13(Prop):
                     getattr(conns[c], k)()
                     obs["res"] = "api"
                 else:
-                    sql = {"begin": "begin", "commit": "commit", "rollback": "rollback", "sel": "select v from t",
-                           "fail": "select * from no_such_table"}.get(k)
-                    if k == "ins" and op.get("how") == "merge":
-                        sql = (f"merge into t using (select {op['v']} as v) s on t.v = s.v "
+                    sql = {"begin": "begin", "commit": "commit", "rollback": "rollback", "sel": f"select v from {T}",
+                           "fail": "select * from db1.no_such_schema.no_such_table", "cmt": f"comment on table db1.{sc}.t is '{op.get('v')}'",
+                           "readcmt": f"select comment from db1.information_schema.tables where table_catalog = 'DB1' and table_schema = '{sc}' "
+                                      "and table_name = 'T'"}.get(k)
+                    if k == "ins" and op.get("how") == "merge" and not nodb:      # (MERGE needs a current schema as built: C03's finding)
+                        sql = (f"merge into {T} using (select {op['v']} as v) s on t.v = s.v "
                                f"when not matched then insert (v) values (s.v)")
                     elif k == "ins":
-                        sql = f"insert into t values ({op['v']})"
+                        sql = f"insert into {T} values ({op['v']})"
                     elif k == "del":
-                        sql = f"delete from t where v = {op['v']}"
+                        sql = f"delete from {T} where v = {op['v']}"
                     cur.execute(sql)
                     rows = cur.fetchall()
                     if k in ("begin", "commit", "rollback"):
@@ -103,6 +113,10 @@ class C13(Prop):
                         obs["res"], obs["n"] = "count", int(rows[0][0])
                     elif k == "sel":
                         obs["res"], obs["seen"] = "rows", sorted(int(r[0]) for r in rows)
+                    elif k == "cmt":
+                        obs["res"] = "ok" if rows == OK_STATUS else "badstatus"
+                    elif k == "readcmt":
+                        obs["res"] = "cmt:" + ((rows[0][0] or "") if len(rows) == 1 else f"rows={len(rows)}")
                     else:
                         obs["res"] = "unexpected-success"
             except Exception:
